@@ -33,7 +33,7 @@ class Snap:
 
     def same_as(self, other):
         return (self.text == other.text and self.acts == other.acts and self.table == other.table
-                and self.render == other.render)
+                and (self.render is None or other.render is None or self.render == other.render))
 
 def eff(ts):
     return T.eff(ts)
